@@ -26,6 +26,12 @@ FMTS = ["xyz", "mol2", "cdxml", "unsupported"]
 KINDS = ["path", "stream", "str"]
 OTYPES = ["molecule", "ensemble", "structure"]
 NAMES = ["given", "notgiven"]
+# form of a path argument (a dimension of path sources / targets only): explicit format with a path whose suffix
+# matches / is missing / names another supported format / names no supported format, or no format at all (deduced
+# from the matching suffix)
+PATHFORMS = ["explicitMatching", "explicitNoSuffix", "explicitOtherSuffix", "explicitUnsupportedSuffix", "deduced"]
+SUFFIX_OTHER = {"xyz": ".mol2", "mol2": ".xyz", "cdxml": ".xyz", "unsupported": ".xyz"}
+SUFFIX_UNSUPPORTED = ".dat"
 
 GIVEN_NAME = "c09_given_name"
 UNSUPPORTED_TABLE_FMT = "pdb"          # known to openbabel, not to molli's own codecs
@@ -51,12 +57,14 @@ def all_cells():
             for k in KINDS:
                 for o in OTYPES:
                     for n in NAMES:
-                        yield (e, f, k, o, n)
+                        for pf in PATHFORMS:
+                            yield (e, f, k, o, n, pf)
 
 
 def cell_index(c) -> int:
-    e, f, k, o, n = c
-    return (((ENTRIES.index(e) * 4 + FMTS.index(f)) * 3 + KINDS.index(k)) * 3 + OTYPES.index(o)) * 2 + NAMES.index(n)
+    e, f, k, o, n, pf = c
+    return ((((ENTRIES.index(e) * 4 + FMTS.index(f)) * 3 + KINDS.index(k)) * 3 + OTYPES.index(o)) * 2 + NAMES.index(n)) * 5 \
+        + PATHFORMS.index(pf)
 
 
 def cell_str(c) -> str:
@@ -65,8 +73,11 @@ def cell_str(c) -> str:
 
 def applicable(c) -> bool:
     """the domain of each entry point (signature level): load/load_all take a path, loads/loads_all a string,
-    dump a path or an open stream, dumps returns a string; dump/dumps have no `name` parameter"""
-    e, f, k, o, n = c
+    dump a path or an open stream, dumps returns a string; dump/dumps have no `name` parameter; the form of the
+    path is a dimension of path sources / targets only"""
+    e, f, k, o, n, pf = c
+    if pf != "explicitMatching" and k != "path":
+        return False
     if e in ("load", "load_all"):
         return k == "path"
     if e in ("loads", "loads_all"):
@@ -76,6 +87,15 @@ def applicable(c) -> bool:
     if e == "dumps":
         return k == "str" and n == "notgiven"
     raise ValueError(e)
+
+
+def path_form(cell, fmt_str):
+    """(suffix of the path, format argument) for the cell's path form; `fmt_str` is the explicit format string"""
+    f, pf = cell[1], cell[5]
+    own = ("." + fmt_str) if fmt_str else ""
+    suffix = {"explicitMatching": own, "deduced": own, "explicitNoSuffix": "", "explicitOtherSuffix": SUFFIX_OTHER[f],
+              "explicitUnsupportedSuffix": SUFFIX_UNSUPPORTED}[pf]
+    return suffix, (None if pf == "deduced" else fmt_str)
 
 
 # --------------------------------------------------------------------------------------
@@ -274,7 +294,8 @@ def call_entry(spy: Spy, cell, sample: Sample, fmt_str: str | None, *, path_as_s
     """perform the call of the cell on the real entry point; returns a dict with everything observed"""
     import molli as ml
 
-    e, f, k, o, n = cell
+    e, f, k, o, n, pf = cell
+    suffix, fmt_arg = path_form(cell, fmt_str)
     kw = {}
     if n == "given":
         kw["name"] = GIVEN_NAME
@@ -285,7 +306,12 @@ def call_entry(spy: Spy, cell, sample: Sample, fmt_str: str | None, *, path_as_s
     fn = getattr(ml, e)
     if e in ("load", "load_all"):
         src = sample.src_path(f, fmt_str)
-        args = (str(src) if path_as_str else src, fmt_str)
+        if src.suffix != suffix:
+            # the same content under a path with the suffix the cell asks for
+            cp = sample.workdir / f"src_{f}{'_' + out_name if out_name != 'out' else ''}{suffix}"
+            cp.write_bytes(src.read_bytes())
+            src = cp
+        args = (str(src) if path_as_str else src, fmt_arg)
         kw["otype"] = otype_arg(o)
     elif e in ("loads", "loads_all"):
         src = sample.text(f)
@@ -299,14 +325,13 @@ def call_entry(spy: Spy, cell, sample: Sample, fmt_str: str | None, *, path_as_s
             before = "PRE\n"
             args = (obj, caller_stream, fmt_str)
         else:
-            suffix = {"xyz": ".xyz", "mol2": ".mol2", "cdxml": ".cdxml", "unsupported": ".dat"}[f]
-            target_path = sample.workdir / f"{out_name}{suffix}"
+            target_path = sample.workdir / f"{out_name}_{f}{suffix}"
             if mode == "a-existing":
                 target_path.write_text("PRE\n")
                 before = "PRE\n"
             elif target_path.exists():
                 target_path.unlink()
-            args = (obj, str(target_path) if path_as_str else target_path, fmt_str)
+            args = (obj, str(target_path) if path_as_str else target_path, fmt_arg)
             if mode in ("w", "a"):
                 kw["mode"] = mode
             if mode == "w":
@@ -336,7 +361,7 @@ def call_entry(spy: Spy, cell, sample: Sample, fmt_str: str | None, *, path_as_s
 
 def classify(cell, obs) -> dict:
     """Action of the cell from the raw observation"""
-    e, f, k, o, n = cell
+    e, f, k, o, n, pf = cell
     calls = obs["calls"]
     kinds = []
     for c in calls:
@@ -423,7 +448,7 @@ def class_call(cell, sample: Sample, fmt: str | None = None, name=None, stream=N
     """call the class-level codec the cell corresponds to, directly. Returns (value, exception)."""
     import molli as ml
 
-    e, f, k, o, n = cell
+    e, f, k, o, n = cell[:5]
     f = fmt or f
     C = otype_cls(o)
     kw = {"name": name} if name is not None else {}
@@ -461,7 +486,7 @@ def class_raises_table(sample: Sample) -> dict:
     for o in OTYPES:
         for e in ENTRIES:
             for f in ("xyz", "mol2"):
-                cell = (e, f, "path", o, "notgiven")
+                cell = (e, f, "path", o, "notgiven", "explicitMatching")
                 C = otype_cls(o)
                 mname = f"{e}_{f}"
                 if not hasattr(C, mname):
